@@ -264,6 +264,10 @@ impl SmtpTransport {
         let mut conn = self.inner.connection()?;
 
         let is_connected = conn.test_connected();
+        #[cfg(lettre_verif)]
+        if !is_connected {
+            crate::verif_hooks::pool_probe("test_fail", conn.server_info().name());
+        }
 
         #[cfg(not(feature = "pool"))]
         conn.quit()?;
